@@ -163,6 +163,7 @@ fn shreal_one(line: &str, tid: usize) -> String {
             use std::os::unix::ffi::OsStrExt;
             let st = Command::new("/bin/sh")
                 .arg("-c")
+                .arg("--") // the text may start with '-' (a program called -x): it is the command string, not an option
                 .arg(std::ffi::OsStr::from_bytes(&text))
                 .env("PATH", format!("{}/bin", dir))
                 .env("ARGV_DUMP_LOG", &log)
@@ -286,6 +287,17 @@ fn stage_main(beh: &str) -> ! {
             die();
         }
         std::process::exit(code);
+    }
+    if let Some(ms) = beh.strip_prefix('K') {
+        // says one line, closes its stdout and stderr, and lives on for a while: the reader must see end-of-file at once
+        let _ = out.write_all(b"k\n");
+        let _ = out.flush();
+        unsafe {
+            libc::close(1);
+            libc::close(2);
+        }
+        std::thread::sleep(std::time::Duration::from_millis(ms.parse().unwrap_or(1000)));
+        unsafe { libc::_exit(0) };
     }
     match beh {
         "Z" => {
